@@ -14,7 +14,7 @@ def run(ctx):
         binname="c09",
         classify=classify,
         extra_trusted=[
-            "TypeScript reading of the emitted types: Ts/TsDen.v has_type_b (exact object reading; scalar texts 'string'/'number'/'boolean' or opaque atoms); `Schema.__OperationInput.T` is read as the alias the schema declaration exports for T in that namespace (C09/Spec.v vars_env), the namespace itself being C10's model, tied to /repo by the C10 check",
+            "TypeScript reading of the emitted types: Ts/TsDen.v has_type_b (exact object reading; scalar texts 'string'/'number'/'boolean' or opaque atoms); `Schema.__OperationInput.T` is read as the alias the schema declaration exports for T in that namespace (C09/Spec.v vars_env), the namespace itself being C10's model in the theorems and, in holds, the text the real SchemaTypePrinter emits read back with C10/Parse.v",
             "Coercible is my transcription of CoerceVariableValues / input coercion (GraphQL Oct-2021 §6.1.2, §3.5-3.10) without the spec's extra leniencies (single value for a list, unknown variables ignored), which only enlarge it",
         ],
         assumptions=[
